@@ -17,7 +17,7 @@ from vf.core import CaseResult, Ctx, Violation, hyp_run, exc_sig
 
 PROP_ID = 'C23'
 LEVEL = 'exploration'
-BUDGET = {'quick': 24000, 'thorough': 480000}
+BUDGET = {'quick': 16000, 'thorough': 480000}
 RULE = (
     'Hypothesis draws one of three case kinds. "tokens" (70%): a gap-free '
     'token combination (absolute ~user/workflow//cycle/task/job, partial, or '
@@ -49,8 +49,14 @@ ASSUMPTIONS = [
     'contains none of ~ : / newline.  Integer cycles may be one character '
     'long (tests/unit/test_id.py says so for task.cycle).',
     'For arbitrary strings only "ValueError, or a parse whose formatting '
-    're-parses to the same tokens" is required (empty-after-strip values '
-    'count as absent).',
+    're-parses to the same tokens" is required, and only when the parsed '
+    'values are themselves valid tokens (empty-after-strip values count as '
+    'absent).',
+    'Sensitivity (tools/mut.sh, quick): detected: cycle group lazy->greedy, '
+    'job padding :02->:03, __hash__ over None values, LEGACY_TASK_DOT_CYCLE '
+    '*->+, _dict_strip without strip, workflow "//" join only with '
+    'selectors. Not detected: dropping the (?!//) guard -- equivalent mutant '
+    '(the workflow group starts with [^:~\\n/]+ which cannot match "/").',
 ]
 MANIFEST = {'engine': 'P', 'technique': 'Hypothesis round-trip vs independent formatter'}
 
